@@ -112,6 +112,7 @@ def crossratio(
         b = matvec(basis, b.array)
         c = matvec(basis, c.array)
         d = matvec(basis, d.array)
+        a, b, c, d = np.broadcast_arrays(a, b, c, d)
         o = []
 
     elif from_point is not None:
